@@ -114,6 +114,7 @@ class LimitGatedScheduler {
                 tasks_.schedule(std::move(func));
               }
             } else {
+              DISPENSO_VERIF_POINT(::dispenso::verif::kPipeCompletionAfterFailedDequeue);
               resources_.fetch_add(1, std::memory_order_acq_rel);
             }
           });
@@ -124,6 +125,7 @@ class LimitGatedScheduler {
 #endif
       });
       DISPENSO_TSAN_ANNOTATE_IGNORE_WRITES_END();
+      DISPENSO_VERIF_POINT(::dispenso::verif::kPipeAfterEnqueue);
 
       while (resources_.fetch_sub(1, std::memory_order_acq_rel) > 0) {
         OnceFunction func;
